@@ -3,3 +3,5 @@ pub mod cost;
 pub mod supply;
 pub mod rta;
 pub mod systems;
+pub mod agree;
+pub mod harden;
